@@ -431,6 +431,7 @@ class Run:
         self.init = init
         self.ops, self.steps = [], []
         self.recorded = {}             # component name -> parent list this harness passed to add_comp
+        self.mux_expect = None         # (mux name, ordered input names) the CALLS SO FAR entitle a user to expect (see _track_mux)
         kw = {"group": init["group"], "rail": init["rail"]}
         self.sys, e, _ = quiet(lambda: System(init["name"], mk(init["comp"]), **kw))
         self.init_outcome = exc_name(e)
@@ -465,11 +466,59 @@ class Run:
                 for k in list(self.recorded):
                     if k not in live:
                         del self.recorded[k]
+        if out == "ok":
+            self._track_mux(op, st)
         step = {"op": op, "outcome": out, "facts": f, "obs": obs, "st": st2, "wf": wf_oracle(st2),
                 "msg": str(e) if e is not None else ""}
         self.ops.append(op)
         self.steps.append(step)
         return step
+
+    def _track_mux(self, op, st):
+        """The ordered inputs of the PMux as the documented meaning of the accepted calls gives them, independent of what
+        the implementation reports afterwards: the list passed to add_comp (a rail name stands for its owner at that time);
+        change_comp renames in place; del_comp(x, del_childs=False) replaces input x by x's own parent (an input that is then
+        listed twice is kept once); deleting the mux, or anything above it together with its children, removes it."""
+        o = op["op"]
+        rails = {r: n for n, r in (st["rails"] or []) if r != ""}
+        preds = {}
+        for p_, c_ in (st["links"] or []):
+            preds.setdefault(c_, []).append(p_)
+        if o == "add_comp" and op["comp"]["kind"] == "pmux":
+            par = op["parent"] if isinstance(op["parent"], list) else [op["parent"]]
+            self.mux_expect = (op["comp"]["name"], [rails.get(x, x) for x in par])
+        elif self.mux_expect is None:
+            return
+        elif o == "change_comp":
+            m, ins = self.mux_expect
+            old, new = op["name"], op["comp"]["name"]
+            self.mux_expect = (new if m == old else m, [new if x == old else x for x in ins])
+        elif o == "del_comp":
+            m, ins = self.mux_expect
+            x = op["name"]
+            if x == m:
+                self.mux_expect = None
+            elif op["del_childs"]:
+                # the mux goes with it iff it is below x
+                below, todo = set(), [x]
+                kids = {}
+                for p_, c_ in (st["links"] or []):
+                    kids.setdefault(p_, []).append(c_)
+                while todo:
+                    y = todo.pop()
+                    for k in kids.get(y, []):
+                        if k not in below:
+                            below.add(k)
+                            todo.append(k)
+                if m in below:
+                    self.mux_expect = None
+            elif x in ins:
+                up = preds.get(x, [])
+                if len(up) == 1:
+                    new = [up[0] if y == x else y for y in ins]
+                    self.mux_expect = (m, list(dict.fromkeys(new)))
+                else:
+                    self.mux_expect = None       # outside the documented cases: no expectation
 
     def history(self):
         return {"init": self.init, "ops": list(self.ops)}
